@@ -258,9 +258,47 @@ def model_stream(res, rng, tier):
         chunks = [codes[b[i]:b[i + 1]] for i in range(len(b) - 1)]
         jobs.append(("indexer", chunks, ng, perm if use_map else None, mask))
         reqs.append(sx(["group_sorted_indexer", chunks, ng, perm if use_map else "none", "none" if mask is None else ["b"] + [1 if x else 0 for x in mask]]))
+    for t in range(n_cases):
+        # the run detector on raw chunk lists: ints, floats with NaN, timestamps with NaT
+        n = rng.randint(1, 10)
+        kind = rng.choice(["int", "float", "dt"])
+        shape_ = rng.choice(["sorted", "sorted", "nearly", "random"])
+        vals = [rng.randrange(0, 5) for _ in range(n)]
+        if shape_ != "random":
+            vals.sort()
+        if shape_ == "nearly" and n > 1:
+            j = rng.randrange(n)
+            vals[j] = rng.randrange(0, 5)
+        col = [v if kind == "int" or rng.random() > 0.12 else None for v in vals]
+        cuts = sorted(rng.sample(range(1, n), rng.randint(0, min(2, n - 1)))) if n > 1 else []
+        b = [0, *cuts, n]
+        chunks = [col[b[i]:b[i + 1]] for i in range(len(b) - 1)]
+        jobs.append(("mono", chunks, kind))
+        reqs.append(sx(["monotonic_factorization", ["_" if x is None else x for x in col]]))
     resp = drv.ask(reqs)
     for job, r in zip(jobs, resp):
-        if job[0] == "combine":
+        if job[0] == "mono":
+            from numba.typed import List as NumbaList
+            from groupby_lib.groupby.factorization import _monotonic_factorization
+            _, chunks, kind = job
+            def arr_of(ch):
+                if kind == "int":
+                    return np.array(ch, dtype="int64")
+                if kind == "float":
+                    return np.array([np.nan if x is None else float(x) for x in ch], dtype="float64")
+                return np.array(["NaT" if x is None else f"2020-01-0{x + 1}" for x in ch], dtype="datetime64[ns]")
+            lst = NumbaList([arr_of(ch) for ch in chunks])
+            total = sum(len(ch) for ch in chunks)
+            cutoff, codes, labels = _monotonic_factorization(lst, total)
+            if kind == "dt":
+                base = np.datetime64("2020-01-01", "ns")
+                labs = [int((x - base) // np.timedelta64(1, "D")) for x in labels]
+            else:
+                labs = [int(x) for x in labels]
+            impl = (int(cutoff), [int(x) for x in codes[:cutoff]], labs)
+            model = (int(r[0]), [int(x) for x in r[1]][: int(r[0])], [int(x) for x in r[2]])
+            case = dict(level="model", kernel="_monotonic_factorization", chunks=chunks, kind=kind)
+        elif job[0] == "combine":
             _, rows, weights, cart = job
             arr = np.array(rows, dtype="int64")
             comb, uniq = _combine_factorizations(arr.copy(), np.array(weights, dtype="int64"), np.full(cart, -1, dtype="int32"))
